@@ -141,6 +141,9 @@ def loadLogicSwitch (env : Env) (sw : SwitchSpec) : Except String (Option (List 
 structure ForEachSpec where
   itemIn : Fld
   inputKeyEmpty : Bool
+  /-- `forEach.condition` is present (truthy) and not a mapping — the CRD schema does not describe this member;
+      the repaired `_prepare_for_each` (fix F15) answers an ErrorStep -/
+  conditionNotObject : Bool := false
   deriving Repr, Inhabited
 
 structure StepSpec where
@@ -212,7 +215,7 @@ def scanForEach (fe : Option ForEachSpec) : Stage := fun acc =>
     | .ast t =>
       match extract t with
       | .error e => .error e
-      | .ok keys => if fe.inputKeyEmpty then pure none else pure (some (acc.add keys))
+      | .ok keys => if fe.inputKeyEmpty || fe.conditionNotObject then pure none else pure (some (acc.add keys))
 
 /-- run the stages in order; `.inl acc` = a stage failed with `acc` gathered so far -/
 def runStages : List Stage → Acc → Except String (Sum Acc Acc)
